@@ -22,6 +22,22 @@ fn gen_input(seed: u64, case: u64, slow: bool) -> (String, Vec<u8>) {
         let n = 34_000 + rng.below(2_000);
         return ("ast-huge-group".into(), pgvcore::ast::huge_group_ast(&mut rng, n).print_lf());
     }
+    if case == 1 && !slow {
+        // thousands of class records (more than any plausible threshold for switching to a
+        // parallel or batched conversion), most with a sourceFile header and a few members
+        let n = 4_100 + rng.below(1_500);
+        let mut t = String::with_capacity(n * 120);
+        for i in 0..n {
+            t.push_str(&format!("com.example.pkg{}.Klass{} -> k.{}:\n", i % 37, i, pgvcore::util::hex(&(i as u32).to_be_bytes())));
+            if i % 3 != 0 {
+                t.push_str(&format!("# {{\"id\":\"sourceFile\",\"fileName\":\"Klass{}.kt\"}}\n", i % 500));
+            }
+            for j in 0..(i % 4) {
+                t.push_str(&format!("    {}:{}:void method{}(int,java.lang.String):{}:{} -> {}\n", 1 + j * 5, 4 + j * 5, (i + j) % 11, 100 + j, 103 + j, ["a", "b", "c"][j % 3]));
+            }
+        }
+        return ("many-classes".into(), t.into_bytes());
+    }
     match case % 4 {
         0 | 1 => {
             let mut cfg = GenCfg::default();
@@ -71,6 +87,9 @@ pub fn run(ctx: &Ctx, rep: &mut Reporter) -> Json {
             let b = cur::write_cache(&text).expect("write to Vec");
             rep.count("evaluations", 2);
             rep.count("mappings", 1);
+            if kind == "many-classes" {
+                rep.count("mappings_with_more_than_4096_classes", 1);
+            }
             rep.count("writes", 2);
             let mk = |what: &str, x: &[u8], y: &[u8]| {
                 let mut d = mapping_detail(&text[..text.len().min(6000)], &kind);
